@@ -321,6 +321,24 @@ def apply_op(fam, op, live=None, world=None):
         elif k == "handout":
             x = o[op["i"]]
             new = Hd("M", x, nroot, h.troot, sizes=[len(r) for r in x.residues])
+        elif k == "iter_next":
+            # the next molecule of an iteration over the system that the caller keeps going (every molecule it yielded
+            # stays held as a handle); position p of the iteration is the hand-out of instance p
+            st = getattr(h, "iterstate", None)
+            if op.get("restart") or st is None:
+                st = {"it": iter(o), "pos": 0}
+            h.iterstate = st
+            op["i"] = st["pos"]
+            try:
+                x = next(st["it"])
+            except StopIteration:
+                h.iterstate = None
+                raise IndexError("iteration over the system is exhausted")
+            except Exception:
+                h.iterstate = None      # a generator that raised is finished
+                raise
+            st["pos"] += 1
+            new = Hd("M", x, nroot, h.troot, sizes=[len(r) for r in x.residues])
         elif k == "ali_set":
             side = op["side"]
             if op["j"] is None:
@@ -378,7 +396,7 @@ def apply_op(fam, op, live=None, world=None):
     except Exception as ex:  # noqa: BLE001 - the exception class is the observation
         return exc_code(ex), None
     if new is not None and new.kind == "M":
-        if k == "handout":
+        if k in ("handout", "iter_next"):
             new.species = ("s", world["system"]["instances"][op["i"]]) if world else None
         elif k == "ali_set":
             new.species = fam[op["j"]].species
@@ -387,7 +405,7 @@ def apply_op(fam, op, live=None, world=None):
     return 0, new
 
 
-COPYLIKE = {"copy", "deep_copy", "align", "atoms", "handout", "ali_set", "copy_with"}
+COPYLIKE = {"copy", "deep_copy", "align", "atoms", "handout", "iter_next", "ali_set", "copy_with"}
 MUTATING = {"move", "move_to", "rotate", "set_positions", "set_velocities", "set_ids", "set_resids_all", "set_resids",
             "set_resnames_all", "set_resnames", "set_molname", "set_pos", "set_vel", "set_atomid", "set_resid",
             "set_top_resid", "set_resname", "set_name"}
@@ -505,6 +523,9 @@ def gen_op(rs, fam, bufs=None):
         if h.kind == "S":
             if full:
                 continue
+            if rs.randint(0, 2):
+                # iteration: consecutive molecules, all of them kept
+                return {"h": hi, "op": "iter_next", "restart": bool(rs.randint(0, 7) == 0)}
             return {"h": hi, "op": "handout", "i": int(rs.randint(0, h.nsp + (rs.randint(0, 12) == 0)))}
         if h.kind in "RM":
             w.update(move=5, move_to=4, rotate=5, set_positions=3, set_velocities=3, set_ids=3)
@@ -732,6 +753,16 @@ class Oracle:
             off = sum(p.sizes[:r])
             if not np.array_equal(p.obj.atoms_positions[off:off + p.sizes[r]], h.obj.atoms_positions):
                 self.bad.append("step %d: coordinates written through residue view %d not visible in the molecule" % (step, op["h"]))
+        # 2b. a molecule handed out by a system (indexing or iteration) is an object of its own and shows what system[i] shows
+        if code == 0 and k in ("handout", "iter_next"):
+            new = fam[-1]
+            if any(x.obj is new.obj for x in fam[:-1]):
+                self.bad.append("step %d: the molecule handed out by the system is an object the caller already holds" % step)
+            ref = h.obj[op["i"]]
+            a, b = snap(new)[0], snap(Hd("M", ref, -1, -1))[0]
+            if a != b:
+                self.bad.append("step %d: molecule %d obtained from the system by %s differs from system[%d]"
+                                % (step, op["i"], "iteration" if k == "iter_next" else "indexing", op["i"]))
         # 3. rigid operations
         if code == 0 and self.pos_before is not None:
             P0, P1 = self.pos_before, positions_of(h)
@@ -799,7 +830,7 @@ def op_term(fam_kinds, op):
         return "(OIter %s)" % nat(op["i"])
     if k == "resview":
         return "(OResView %s)" % nat(op["i"])
-    if k == "handout":
+    if k in ("handout", "iter_next"):
         return "(OHandout %s)" % nat(op["i"])
     if k == "ali_set":
         return "(OAliSet %s %s)" % ("true" if op["side"] == "start" else "false",
@@ -1087,6 +1118,22 @@ def corpus_cases():
         {"h": 2, "op": "move", "v": [3e-7, 0.0, 0.0]}, {"h": 2, "op": "move_to", "v": [31.0, 47.5, 12.25]},
         {"h": 2, "op": "move_to", "v": [1.0, 2.0, 3.0]}, {"h": 2, "op": "move", "v": [0.0, 2e-8, 0.0]}, {"h": 2, "op": "move_to", "v": [1.0, 2.0, 3.0]},
         {"h": 0, "op": "move_to", "v": [0.0, 0.0, 0.0]}, {"h": 0, "op": "move", "v": [5e-9, 0.0, 0.0]}, {"h": 0, "op": "move_to", "v": [0.0, 0.0, 0.0]}]
+
+    # witness of seeded change C18-10: molecules obtained by ITERATING a system and held at the same time
+    ws3 = {"mols": [w["mols"][0]],
+           "system": {"species": [ws["system"]["species"][0],
+                                  {"name": "MQ", "atoms": [("Q0", "VA", 1), ("Q1", "VA", 1)], "pos": [[0, 0, 0], [0, 0, 0.1]],
+                                   "bonds": [[0, 1]], "vel": [[0, 0, 0.1], [0, 0.1, 0]]}],
+                      "instances": [0, 0, 0, 1, 1], "shifts": [[0, 0, 0], [1, 1, 1], [2, 0, 1], [3, 3, 3], [0, 3, 1]]}}
+    yield "molecules_held_from_iteration", ws3, [
+        {"h": 1, "op": "iter_next"}, {"h": 1, "op": "iter_next"}, {"h": 1, "op": "iter_next"}, {"h": 1, "op": "iter_next"},
+        {"h": 1, "op": "iter_next"},                                                       # h2..h6: all five held
+        {"h": 2, "op": "move", "v": [1.0, 1.0, 1.0]}, {"h": 2, "op": "set_ids", "l": [50, 51, 52]}, {"h": 2, "op": "set_resids", "l": [8, 9]},
+        {"h": 3, "op": "index", "i": 1}, {"h": 7, "op": "set_pos", "v": [9.0, 9.0, 9.0]}, {"h": 7, "op": "set_atomid", "z": 77},
+        {"h": 4, "op": "rotate", "m": rot}, {"h": 5, "op": "move_to", "v": [0.0, 0.0, 0.0]}, {"h": 6, "op": "set_velocities", "l": None},
+        {"h": 1, "op": "iter_next"},                                                       # exhausted: IndexError
+        {"h": 1, "op": "iter_next"}, {"h": 1, "op": "iter_next"}, {"h": 8, "op": "move", "v": [0.0, 0.0, 5.0]},
+        {"h": 1, "op": "handout", "i": 1}, {"h": 1, "op": "iter_next", "restart": True}, {"h": 9, "op": "move", "v": [1.0, 0.0, 0.0]}]
 
 
 # ------------------------------------------------------------------ check entry points
